@@ -229,6 +229,17 @@ class Ctx:
         self.replayed_ok += 1
 
     # ------------------------------------------------------------------ wrap up
+    def section(self, label, fn):
+        """run one part of a check; a part the engine cannot go through (missing model, changed signature ...) makes the whole run
+        inconclusive (exit 2 unless a violation is found) but does not stop the other parts from looking for violations"""
+        try:
+            return fn()
+        except Exception as e:
+            if os.environ.get('VERIF_TRACEBACK'):
+                traceback.print_exc(limit=-6)
+            self.inconclusive.append(f'[{label}] {type(e).__name__}: {e}')
+            return None
+
     def finish(self):
         S = self.S
         wall = time.time() - self.t0
